@@ -2,6 +2,7 @@
 use crate::report::{self, Acc, CheckMeta};
 use crate::sc;
 use crate::sa_checks;
+use crate::sa_meta;
 use crate::zobrist::ZobristHasher;
 use serde_json::{json, Map, Value};
 
@@ -127,8 +128,49 @@ pub fn run_sa_check(id: &str, tier: &str, seed: u64) -> i32 {
     report::finish_check(&meta, &acc, t0.elapsed().as_secs_f64(), extra)
 }
 
+pub fn run_meta_check(id: &str, tier: &str, seed: u64) -> i32 {
+    let t0 = std::time::Instant::now();
+    let n: u64 = match (id, tier) {
+        ("C17", "quick") => 1_200,
+        ("C17", _) => 25_000,
+        (_, "quick") => 4_000,
+        (_, _) => 80_000,
+    };
+    let mut acc = match id {
+        "C17" => report::par_acc(n, |r| sa_meta::run_c17(seed, r)),
+        _ => report::par_acc(n, |r| sa_meta::run_c16(seed, r)),
+    };
+    if id == "C17" {
+        minimise_all(&mut acc, |v| sa_meta::minimise_c17(v));
+    }
+    let (rule, level) = match id {
+        "C17" => ("per run one timing-free base script (handshake, 1-2 games, zero-slice go commands, isready probes, quit); (ignore) a noisy twin with unknown/empty/blank/4 kB/non-ASCII lines inserted anywhere after the handshake, ASCII-whitespace variants (blanks, tabs, VT, FF, CRLF) of valid commands and unknown tokens inside go must give the same transcript and the same probed board/record after each command; (lifecycle) stdin is closed at EVERY command boundary of the script (enumerated, exhaustive per script) and at two sampled mid-line offsets, and the process must end. An evaluation is one simulated session. Non-trivial: distinct noisy scripts with >= 1 noise item plus distinct (script prefix, EOF boundary) pairs.", "fault_enumeration"),
+        _ => ("metamorphic pairs: request R = (position X, go G) in a fresh engine vs after 1-6 items of earlier traffic (other games with timed and zero-slice go, ucinewgame, setoption, noise, shorter/longer versions of X's own game, R itself), optionally R repeated; zero-slice G: identical bestmove; timed G: (depth, nodes, score, first PV move) sequences agree on their common prefix and the bestmove is among the run's own improvements. Timing faults (stall_search, oversleep_io, spawn_delay) only inside the prefix. Non-trivial: distinct (prefix shape, R) pairs whose prefix changed the board or the repetition record.", "exploration"),
+    };
+    let meta = CheckMeta {
+        id,
+        tier,
+        seed,
+        level,
+        rule,
+        assumptions: vec![
+            "noise is valid UTF-8 and does not begin with a command word the engine knows; whitespace variants use ASCII whitespace".into(),
+            "a truncated known command (EOF in mid-line) is malformed input: dying on it counts as ending the process".into(),
+            "the seam's read_line has std's contract (bytes up to and including newline; the rest at EOF; then Ok(0) for ever)".into(),
+        ],
+        real_stub: real_stub_sa(),
+    };
+    let mut extra = Map::new();
+    extra.insert("runs".into(), json!(n));
+    if id == "C17" {
+        extra.insert("exhaustive_note".into(), json!("EOF at command boundaries is enumerated exhaustively for each generated script; scripts and noise placement are sampled"));
+    }
+    report::finish_check(&meta, &acc, t0.elapsed().as_secs_f64(), extra)
+}
+
 pub fn run_check(id: &str, tier: &str, seed: u64) -> i32 {
     match id {
+        "C16" | "C17" => run_meta_check(id, tier, seed),
         "C01" | "C02" | "C04" | "C05" | "C13" => run_sc_check(id, tier, seed),
         "C03" | "C08" | "C09" => run_sa_check(id, tier, seed),
         _ => {
